@@ -40,7 +40,7 @@ type IG struct {
 	Via map[Edge]viaInfo
 	// flatStack: the merge blocks flattenCase is expanding (cycle detection)
 	flatStack map[*ssa.BasicBlock]bool
-	Copies map[int][]int
+	Copies    map[int][]int
 	// Funcs: Fn, then the helpers spliced into the graph (see inl.go).
 	Funcs   []*ssa.Function
 	splices []igSplice
@@ -2153,7 +2153,6 @@ func (g *IG) isMerge(v ssa.Value) bool {
 	return len(cs) > 1 || len(cs) == 1 && cs[0].Val != v
 }
 
-
 // decideBool evaluates a boolean value under a set of facts: a fact about the
 // value itself, or (for a comparison) a fact about the same operands.
 func decideBool(v ssa.Value, facts []Fact) (val, ok bool) {
@@ -2197,7 +2196,6 @@ func decideBool(v ssa.Value, facts []Fact) (val, ok bool) {
 	}
 	return false, false
 }
-
 
 // valueCasesAt: the cases of a merged value that are possible at node n (the
 // case's place can reach n).
@@ -2308,7 +2306,6 @@ func (g *IG) ReachAssuming(e Edge, extra []Fact) []bool {
 	}
 	return out
 }
-
 
 // ivLowerBound: v is a signed or unsigned counter whose every incoming value is
 // a constant or the counter plus a positive constant; returns the least
